@@ -5,3 +5,5 @@ mod k_dtype;
 mod k_time;
 #[cfg(kani)]
 mod k_gen;
+#[cfg(kani)]
+mod k_agg;
